@@ -919,6 +919,15 @@ func (ex *Exec) step(f *Frame, st *State, in ssa.Instruction) bool {
 			f.regs[x] = VIface{U: pv.U, Concrete: x.X.Type(), Val: xv}
 			break
 		}
+		if pv, ok := xv.(VPtr); ok && (pv.Root != nil || pv.Arr != nil) {
+			// a pointer in an interface: the interface value is identified by the pointer
+			idp := pv
+			idp.Nil = "false"
+			u := w.ptrID(idp)
+			st.assume(mkNot(mkEq(u, "nil_iface")))
+			f.regs[x] = VIface{U: u, Concrete: x.X.Type(), Val: xv}
+			break
+		}
 		u := w.st.fresh("iface", sortU)
 		st.assume(mkNot(mkEq(u, "nil_iface")))
 		f.regs[x] = VIface{U: u, Concrete: x.X.Type(), Val: xv}
